@@ -22,7 +22,7 @@ func C14() *engine.Scenario {
 		Level:      "exploration",
 		MapSched:   true,
 		Setup:      loadKeys,
-		Rule:       "World with the canonical payload observed at both ends through the Logger seam (WithLogger + WithDebugSigning). Collide half (schedules / representations): for one (pipeline, pipeline env, repository URL, algorithm) the payload of every command step must be byte-identical across (a) a second signing run under a different map-iteration schedule, (b) a re-rendering of the document with every mapping's key order permuted (different Go map insertion order), (c) nil vs empty env/plugins/matrix spellings, (d) short vs canonical plugin source spelling (fixed table from the documented rules), (e) the verifier's payload after fault-free transport (upload JSON -> job -> UnmarshalJSON -> Verify). Differ half (faults): for a job tampered by one content fault of the C01 transport (corrupt/drop/add/reorder/duplicate/boundary-shift on command, step env, plugins, matrix, repository URL, signed pipeline env; or a different algorithm) the payload obtained by signing the tampered content must differ from the original's; no-op faults are counted as trivial. Fingerprint = (pair kind, fault kind, feature set, key kind). Non-trivial = a representation-changing collide pair or a certainly-semantic differ pair was judged.",
+		Rule:       "World with the canonical payload observed at both ends through the Logger seam (WithLogger + WithDebugSigning). Collide half (schedules / representations): for one (pipeline, pipeline env, repository URL, algorithm) the payload of every command step must be byte-identical across (a) a second signing run under a different map-iteration schedule, (b) a re-rendering of the document with every mapping's key order permuted (different Go map insertion order), (c) nil vs empty env/plugins/matrix spellings and absent/null/{}/[] plugin configurations, (d) short vs canonical plugin source spelling (fixed table from the documented rules), (e) the verifier's payload after fault-free transport (upload JSON -> job -> UnmarshalJSON -> Verify). Differ half (faults): for a job tampered by one content fault of the C01 transport (corrupt/drop/add/reorder/duplicate/boundary-shift on command, step env, plugins, matrix, repository URL, signed pipeline env; or a different algorithm) the payload obtained by signing the tampered content must differ from the original's; no-op faults are counted as trivial. Constructed differ pairs: value-less matrix dimensions, matrix extra keys named like typed fields, and a plugin-configuration value vs its look-alike of another type (integers beyond 2^53 vs their digits as a string, neighbouring big integers, float/bool/null vs their spellings, 0 vs false). Fingerprint = (pair kind, fault kind, feature set, key kind). Non-trivial = a representation-changing collide pair or a certainly-semantic differ pair was judged.",
 		Real:       []string{"pipeline.Parse", "signature.SignSteps/Sign (canonicalPayload, SignedFields)", "signature.Verify (ValuesForFields, requireKeys, canonicalPayload)", "Plugin.MarshalJSON/FullSource, Matrix.MarshalJSON", "JCS"},
 		Stub:       []string{"Author", "Backend job splitter", "tampering transport (content faults only)", "payload-capturing Logger", "map iteration scheduler (zzverifsim)"},
 		Assume:     []string{"the payload is observed as the []byte argument of the 'Signed Step:' debug line", "short/canonical source equivalence is taken from a fixed table written from the documented rules (C17), not from FullSource"},
